@@ -84,6 +84,20 @@ def _lock(name):
     return f
 
 
+def _touch(path):
+    try:
+        os.utime(path, None)
+    except OSError:
+        pass
+
+
+def _stale(path, hours=4.0):
+    try:
+        return time.time() - os.path.getmtime(path) > hours * 3600
+    except OSError:
+        return False
+
+
 def build_lib(variant):
     cc, cflags, _ = VARIANTS[variant]
     th = tree_hash()
@@ -93,10 +107,12 @@ def build_lib(variant):
     lk = _lock('lib-' + variant)
     try:
         if os.path.exists(lib):
+            _touch(out)
             return lib
-        # drop stale builds of this variant (and drivers that depended on them)
+        # drop stale builds of this variant (and drivers that depended on them) - only ones unused for hours, because a check
+        # started against an earlier state of the tree may still be running from them
         for d in os.listdir(BUILD):
-            if d.startswith('lib-%s-' % variant) or d.startswith('drv-%s-' % variant):
+            if (d.startswith('lib-%s-' % variant) or d.startswith('drv-%s-' % variant)) and _stale(os.path.join(BUILD, d)):
                 shutil.rmtree(os.path.join(BUILD, d), ignore_errors=True)
         tmp = out + '.tmp%d' % os.getpid()
         shutil.rmtree(tmp, ignore_errors=True)
@@ -145,9 +161,10 @@ def build_driver(name, variant, sources=None, extra_cflags=(), extra_ldflags=(),
     lk = _lock('drv-%s-%s' % (variant, name))
     try:
         if os.path.exists(exe):
+            _touch(out)
             return exe
         for d in os.listdir(BUILD):
-            if d.startswith('drv-%s-%s-' % (variant, name)):
+            if d.startswith('drv-%s-%s-' % (variant, name)) and _stale(os.path.join(BUILD, d)):
                 shutil.rmtree(os.path.join(BUILD, d), ignore_errors=True)
         tmp = out + '.tmp%d' % os.getpid()
         shutil.rmtree(tmp, ignore_errors=True)
